@@ -28,6 +28,26 @@ CHECKS = {
    tech="TLA+ spec GroupCommit.tla (queue + caller protocol) model-checked by TLC incl. liveness; TLC schedules driven through the real GroupCommitQueue by a puppeteer, C37 evaluated on observed acknowledgements vs log",
    text="TLC explores every interleaving of 2 committers x 2 commits (3 committers in thorough) with injected write failures, one action per critical section of the queue mutex, and checks AckAfterWrite/AtMostOnce/FailureReachesAll/NoStuckFlag and NoLostWakeup under weak fairness; each explored transition is a schedule forced on the real queue with the caller protocol enacted step by step; after any divergence the execution is continued and judged on what is observed",
    note="the caller protocol is re-enacted by the harness on the bare queue (not through Database handles); the WAL write is a harness-side log; the 30 s timeout is outside the model"),
+ "C04": dict(cat="model_checking", ref="DESIGN.md 3.9, 6 (C04)",
+   tech="TLA+ reference spec Relational.tla explored by TLC (per-transition emission, VIEW hides history; -simulate random walks); every behaviour rendered to SQL and replayed on TurDB, results and full observation compared with the model",
+   text="Reopen and Checkpoint are stuttering actions of Relational.tla interleaved anywhere in the DML histories TLC explores (depth 3 quick / 4 thorough, plus random walks of 25-40 steps); after each, the full observation (scan, COUNT(*), primary-key, unique and range lookups) must equal the model's and later statements must behave as the model says; run with the WAL off and on",
+   note="bounded domain (3 ids, a in {NULL,1,2}, b in {NULL,0,1,5}); quick replays a stratified seeded sample of the explored transitions plus random walks, thorough replays depth-4 transitions; renderer/normaliser in lib/relational.py trusted; open findings listed in known_findings.json by spec-defined signature"),
+ "C05": dict(cat="model_checking", ref="DESIGN.md 3.9, 6 (C05)",
+   tech="TLA+ reference spec Relational.tla explored by TLC (per-transition emission, VIEW hides history; -simulate random walks); every behaviour rendered to SQL and replayed on TurDB, results and full observation compared with the model",
+   text="every INSERT (1 and 2 rows) / UPDATE / DELETE / TRUNCATE transition TLC explores from every reachable table state (with tombstone and reopen history classes in the VIEW) is executed on TurDB: affected-row count, resulting rows and COUNT(*) must equal the model's",
+   note="bounded domain (3 ids, a in {NULL,1,2}, b in {NULL,0,1,5}); quick replays a stratified seeded sample of the explored transitions plus random walks, thorough replays depth-4 transitions; renderer/normaliser in lib/relational.py trusted; open findings listed in known_findings.json by spec-defined signature"),
+ "C06": dict(cat="model_checking", ref="DESIGN.md 3.9, 6 (C06)",
+   tech="TLA+ reference spec Relational.tla explored by TLC (per-transition emission, VIEW hides history; -simulate random walks); every behaviour rendered to SQL and replayed on TurDB, results and full observation compared with the model",
+   text="every failing statement TLC generates (all failure kinds incl. k-th row of a multi-row INSERT and multi-row UPDATE) and every statement TurDB rejects: the full observation afterwards must equal the model's pre-statement state",
+   note="bounded domain (3 ids, a in {NULL,1,2}, b in {NULL,0,1,5}); quick replays a stratified seeded sample of the explored transitions plus random walks, thorough replays depth-4 transitions; renderer/normaliser in lib/relational.py trusted; open findings listed in known_findings.json by spec-defined signature"),
+ "C09": dict(cat="model_checking", ref="DESIGN.md 3.9, 6 (C09)",
+   tech="TLA+ reference spec Relational.tla explored by TLC (per-transition emission, VIEW hides history; -simulate random walks); every behaviour rendered to SQL and replayed on TurDB, results and full observation compared with the model",
+   text="TurDB must accept a write iff Relational.tla's TableOk (PRIMARY KEY, UNIQUE with distinct NULLs, NOT NULL, CHECK) holds for the resulting table, for every explored transition, both directions (accepts_invalid / rejects_valid) reported",
+   note="bounded domain (3 ids, a in {NULL,1,2}, b in {NULL,0,1,5}); quick replays a stratified seeded sample of the explored transitions plus random walks, thorough replays depth-4 transitions; renderer/normaliser in lib/relational.py trusted; open findings listed in known_findings.json by spec-defined signature"),
+ "C10": dict(cat="model_checking", ref="DESIGN.md 3.9, 6 (C10)",
+   tech="TLA+ reference spec Relational.tla explored by TLC (per-transition emission, VIEW hides history; -simulate random walks); every behaviour rendered to SQL and replayed on TurDB, results and full observation compared with the model",
+   text="after every explored transition on a table with primary-key, unique and secondary indexes, every index-path query (point, range, IS NULL) is compared with what the full scan of the same database implies; no model is involved in the comparison, the model only generates the histories",
+   note="bounded domain (3 ids, a in {NULL,1,2}, b in {NULL,0,1,5}); quick replays a stratified seeded sample of the explored transitions plus random walks, thorough replays depth-4 transitions; renderer/normaliser in lib/relational.py trusted; open findings listed in known_findings.json by spec-defined signature"),
 }
 
 NOT_APPLICABLE = {}
